@@ -255,6 +255,7 @@ var tabledSortSites = map[string]string{
 	"owa.sortAlternativeCriteriaWeights":                               "only the float values are kept and sorted; equal values are indistinguishable",
 	"choquet.prepareCriteriaInAscendingOrder":                          "sorted by value; exactly-equal values form one tie group in computeTotalWeight whose members are re-sorted by name (criterionKey)",
 	"owa.additionAsOwaParams":                                          "ids sorted by sort.Strings; map keys are unique",
+	"fx.OkMapSorted":                                                   "positive-control twin in /verif/fixtures: only the values are kept and sorted",
 }
 
 // reachesGenerator: does f (transitively, bounded) call a ValueGenerator?
